@@ -16,17 +16,20 @@ from harness import common, gen  # noqa: E402
 
 def cmd_setup(_args):
 	start = time.time()
-	for shim in ('sha3.py',):
-		status, out = common.run([sys.executable, str(common.SHIMS / shim)], 120)
+	for shim in (['sha3.py'], ['-m', 'nacl.bindings']):
+		status, out = common.run([sys.executable] + shim, 300, cwd=common.SHIMS)
 		if status != 0:
 			print(f'INTERNAL: shim self-test {shim} failed\n{out}')
 			return 2
 	gen.regenerate()
-	status, out = common.run(['make', 'clean'], 120, cwd=common.COQ) if (common.COQ / 'Makefile').exists() else (0, '')
-	ok, out = common.coq_make(timeout=3000, keep_going=False)
-	if not ok:
+	# build everything that builds (-k: a work-in-progress file of an unclaimed property must not block the claimed ones) ...
+	ok, out = common.coq_make(timeout=3000, keep_going=True)
+	# ... and require the theorem files of every claimed check
+	manifest = json.loads((common.VERIF / 'MANIFEST.json').read_text(encoding='utf8'))
+	missing = [c['property_id'] for c in manifest['checks'] if not (common.COQ / 'Props' / f'{c["property_id"]}.vo').exists()]
+	if missing:
 		print(out[-4000:])
-		print('INTERNAL: coq build failed')
+		print(f'INTERNAL: coq build failed for claimed checks {missing}')
 		return 2
 	status, out = common.run(
 		['grep', '-rnE', r'Admitted|admit\b|^\s*(Axiom|Parameter|Conjecture)\b|Unset Guard|bypass_check|Admit Obligations|type-in-type',
